@@ -844,6 +844,59 @@ func eachContainerLength(emit func(wireCase)) {
 	}
 }
 
+// eachKeySequence: two containers in a row - a well-formed first item followed by an item with
+// every interesting key/code (the reserved, private and unknown ones included) and a short body:
+// checks that only look at the FIRST item of a list are not enough.
+func eachKeySequence(emit func(wireCase)) {
+	keys := []int{0, 1, 2, 3, 4, 5, 6, 7, 8, 9, 10, 100, 0x7fff, 0x8000, 65279, 65280, 65534, 65535}
+	first := [][]byte{{0, 3, 0, 2, 1, 0xbb}, {0, 2, 0, 0}, {0, 1, 0, 3, 2, 'h', '2'}, {0xff, 0x00, 0, 1, 7}}
+	for _, f := range first {
+		for _, k := range keys {
+			for _, body := range [][]byte{{}, {0}, {0, 0}, {1, 'x'}, {0, 0, 0, 0}, bytes.Repeat([]byte{0xff}, 16)} {
+				par := append([]byte{0, 1, 0}, f...)
+				par = append(par, byte(k>>8), byte(k), byte(len(body)>>8), byte(len(body)))
+				par = append(par, body...)
+				for _, typ := range []byte{64, 65} {
+					rr := append([]byte{1, 'x', 0, 0, typ, 0, 1, 0, 0, 0, 5, byte(len(par) >> 8), byte(len(par))}, par...)
+					emit(wireCase{Input: append([]byte{0, 1, 0x81, 0x80, 0, 0, 0, 1, 0, 0, 0, 0}, rr...), Kind: "svcparam-sequence", Valid: true})
+				}
+				// the same for EDNS0 options behind a valid first option
+				opt := append([]byte{0, 10, 0, 8, 1, 2, 3, 4, 5, 6, 7, 8}, byte(k>>8), byte(k), byte(len(body)>>8), byte(len(body)))
+				opt = append(opt, body...)
+				orr := append([]byte{0, 0, 41, 4, 208, 0, 0, 0, 0, byte(len(opt) >> 8), byte(len(opt))}, opt...)
+				emit(wireCase{Input: append([]byte{0, 1, 0x81, 0x80, 0, 0, 0, 0, 0, 0, 0, 1}, orr...), Kind: "opt-sequence", Valid: true})
+			}
+		}
+	}
+}
+
+// eachEmptyRdata: every type (the pseudo-types OPT, TSIG, SIG, TKEY, ANY, AXFR... included) with
+// RDLENGTH 0, in every section, for the classes and TTLs that have a meaning of their own
+// somewhere (ANY and NONE in updates, the OPT payload size, TTL 0): the dynamic-update forms and
+// the pseudo-records meet here.
+func eachEmptyRdata(emit func(wireCase)) {
+	types := append([]uint16{}, gen.AllTypes...)
+	types = append(types, 41, 249, 250, 251, 252, 253, 254, 255, 0, 65280, 65281, 65535)
+	for _, typ := range types {
+		for _, class := range []uint16{1, 254, 255, 0, 3, 4096, 512} {
+			for _, ttl := range []uint32{0, 1, 0x8000, 0x01000000} {
+				for sec := 0; sec < 3; sec++ {
+					for _, owner := range [][]byte{{0}, {1, 'x', 0}} {
+						w := []byte{0, 9, 0x28, 0, 0, 0, 0, 0, 0, 0, 0, 0}
+						w[7+2*sec] = 1
+						w = append(w, owner...)
+						w = binary.BigEndian.AppendUint16(w, typ)
+						w = binary.BigEndian.AppendUint16(w, class)
+						w = binary.BigEndian.AppendUint32(w, ttl)
+						w = append(w, 0, 0)
+						emit(wireCase{Input: w, Kind: "empty-rdata:" + typeName(typ), Valid: true})
+					}
+				}
+			}
+		}
+	}
+}
+
 // UnpackRRWithHeader with a caller-supplied header: every type x RDLENGTH shorter than, equal to and
 // longer than the RDATA that is really there, followed by more octets
 type hdrCase struct {
@@ -1091,6 +1144,8 @@ func eachManyItems(emit func(wireCase)) {
 }
 
 func init() {
+	pbt.RegisterEnum(pbt.Enum[wireCase]{Name: "item-sequences", Exhaustive: true, Each: eachKeySequence, Check: checkMsg})
+	pbt.RegisterEnum(pbt.Enum[wireCase]{Name: "every-type-empty-rdata", Exhaustive: true, Each: eachEmptyRdata, Check: checkMsg})
 	pbt.RegisterEnum(pbt.Enum[wireCase]{Name: "every-container-many-items", Exhaustive: true, Each: eachManyItems, Check: checkMsg})
 	pbt.RegisterEnum(pbt.Enum[wireCase]{Name: "every-type-small-values", Exhaustive: true, Each: eachSmallValue, Check: checkMsg})
 	pbt.RegisterEnum(pbt.Enum[wireCase]{Name: "every-type-many-records", Exhaustive: true, Each: eachTypeManyRecords, Check: checkMsg})
